@@ -174,6 +174,10 @@ class RegexExpression(Terminal):
             return True
         return False
 
+    def parse_char(self, ch: str) -> bool:
+        """True if this expression matches the single character `ch`."""
+        return self.regex.fullmatch(ch) is not None
+
     def generate(self, gen: Builder, matched_var: str, pairs_var: str) -> None:  # noqa: ARG002
         """Emit Python code for a regex expression."""
         gen.writeln("# ChoiceRegex:")
